@@ -134,6 +134,12 @@ func (c *containerServer) sendLoop() {
 			}
 			verifBegin()
 			err := c.socket.SendMsg(rep.Reply, rep.Msg)
+			if errors.Is(err, errPayloadTooLarge) {
+				// nothing has been written (e.g. error texts embedding very long paths):
+				// answer with an error of this command instead of tearing down the container
+				rep.Reply, rep.Msg = reply{Error: &errorReply{Msg: err.Error()}}, unixsocket.Msg{}
+				err = c.socket.SendMsg(rep.Reply, rep.Msg)
+			}
 			verifEndReply("init", &rep.Reply, rep.Msg, err)
 			for _, f := range rep.FileToClose {
 				f.Close()
